@@ -109,7 +109,11 @@ func (r *Registry) newScope() *MethodScope {
 // once all imports are registered, because resolving a conflict between
 // imports can rename a package qualifier after the variables of earlier
 // methods were named.
-func (r *Registry) ResolveShadowing() {
+//
+// fieldName maps a variable name to the name of its field in the call
+// record. Variables of one method whose field names would be equal (id
+// and Id) get a number appended.
+func (r *Registry) ResolveShadowing(fieldName func(string) string) {
 	// Type parameters first: the methods reserve their final names.
 	for _, scope := range r.scopes {
 		if scope.typeParams {
@@ -118,7 +122,8 @@ func (r *Registry) ResolveShadowing() {
 	}
 	for _, scope := range r.scopes {
 		if !scope.typeParams {
-			scope.resolveShadowing()
+			needed := scope.resolveShadowing()
+			scope.resolveFieldNameConflicts(fieldName, needed)
 		}
 	}
 }
